@@ -4,6 +4,7 @@
 package flight12
 
 import (
+	"bytes"
 	"context"
 	"crypto/rand"
 	"slices"
@@ -229,6 +230,21 @@ func flight0Generate(
 	if err := state.LocalRandom.Populate(); err != nil {
 		return nil, nil, err
 	}
+	if cfg.MaxVersion.Equal(protocol.Version1_3) {
+		// RFC 8446 Section 4.1.3: a server that supports (D)TLS 1.3 and negotiates
+		// 1.2 marks its random, so that a client which also supports 1.3 notices
+		// that somebody took 1.3 out of its ClientHello.
+		copy(state.LocalRandom.RandomBytes[len(state.LocalRandom.RandomBytes)-len(downgradeSentinel12):], downgradeSentinel12)
+	}
 
 	return nil, nil, nil
+}
+
+// downgradeSentinel12 is "DOWNGRD" 0x01, the last eight bytes of the
+// ServerHello random of a 1.3-capable server negotiating 1.2 [RFC 8446 4.1.3].
+var downgradeSentinel12 = []byte{0x44, 0x4F, 0x57, 0x4E, 0x47, 0x52, 0x44, 0x01} //nolint:gochecknoglobals
+
+// hasDowngradeSentinel reports whether a ServerHello random carries the sentinel.
+func hasDowngradeSentinel(random handshake.Random) bool {
+	return bytes.Equal(random.RandomBytes[len(random.RandomBytes)-len(downgradeSentinel12):], downgradeSentinel12)
 }
